@@ -311,11 +311,15 @@ where
             burn::tensor::Distribution::Normal(0., 1.),
             &B::Device::default(),
         );
+        #[cfg(feature = "verif")]
+        let momentum_0 = crate::verif::tap_tensor("hmc.momentum", momentum_0);
 
         // Current log probability: shape [n_chains]
         // Detach pos to ensure it's AD-enabled for the gradient computation.
         let pos = self.positions.clone().detach().require_grad();
         let logp_current = self.target.unnorm_logp_batch(pos.clone());
+        #[cfg(feature = "verif")]
+        crate::verif::rec_tensor("hmc.logp_current", &logp_current);
 
         // Compute gradient of log probability with respect to pos.
         // First gradient step in leapfrog needs it.
@@ -338,6 +342,12 @@ where
         // 2) Run the leapfrog integrator.
         let (proposed_positions, proposed_momenta, logp_proposed) =
             self.leapfrog(self.positions.clone(), momentum_0);
+        #[cfg(feature = "verif")]
+        {
+            crate::verif::rec_tensor("hmc.proposed_positions", &proposed_positions);
+            crate::verif::rec_tensor("hmc.proposed_momenta", &proposed_momenta);
+            crate::verif::rec_tensor("hmc.logp_proposed", &logp_proposed);
+        }
 
         // Compute proposed kinetic energy.
         let ke_proposed = proposed_momenta
@@ -350,6 +360,8 @@ where
 
         // 3) Accept/Reject each proposal.
         let accept_logp = h_current.sub(h_proposed);
+        #[cfg(feature = "verif")]
+        crate::verif::rec_tensor("hmc.accept_logp", &accept_logp);
 
         // Draw a uniform random number for each chain.
         let mut uniform_data = Vec::with_capacity(n_chains);
@@ -361,9 +373,13 @@ where
             burn::tensor::Distribution::Default,
             &B::Device::default(),
         );
+        #[cfg(feature = "verif")]
+        let uniform = crate::verif::tap_tensor("hmc.uniform", uniform);
 
         // Accept the proposal if accept_logp >= ln(u).
         let ln_u = uniform.log(); // shape [n_chains]
+        #[cfg(feature = "verif")]
+        crate::verif::rec_tensor("hmc.ln_u", &ln_u);
         let accept_mask = accept_logp.greater_equal(ln_u); // Boolean mask of shape [n_chains]
         let mut accept_mask_big: Tensor<B, 2, Bool> = accept_mask.clone().unsqueeze_dim(1);
         accept_mask_big = accept_mask_big.expand([n_chains, dim]);
@@ -374,6 +390,8 @@ where
                 .mask_where(accept_mask_big, proposed_positions)
                 .detach()
         });
+        #[cfg(feature = "verif")]
+        crate::verif::rec_tensor("hmc.positions_after", &self.positions);
     }
 
     /// Perform the leapfrog integrator steps in a batched manner.
